@@ -5,6 +5,7 @@ import (
 	"math/rand"
 	"sort"
 	"strings"
+	"unicode/utf16"
 
 	"verif/core"
 	"verif/model"
@@ -19,11 +20,35 @@ type writeOpts struct {
 	extra   []string
 	style   model.YAMLStyle
 	env     []string // extra environment of the child (e.g. GOMAXPROCS=3)
+	// how the document reaches standard input (runner.Opt.StdinKind / StdinPieces) and how it is encoded
+	stdinKind string
+	pieces    int
+	encoding  string // "", "utf8bom", "utf16le", "utf16be" (the latter two with byte order mark)
+}
+
+// encodeDoc re-encodes a UTF-8 YAML document.
+func encodeDoc(doc []byte, enc string) []byte {
+	switch enc {
+	case "utf8bom":
+		return append([]byte("\xef\xbb\xbf"), doc...)
+	case "utf16le", "utf16be":
+		u := utf16.Encode([]rune("\ufeff" + string(doc)))
+		out := make([]byte, 0, 2*len(u))
+		for _, x := range u {
+			if enc == "utf16le" {
+				out = append(out, byte(x), byte(x>>8))
+			} else {
+				out = append(out, byte(x>>8), byte(x))
+			}
+		}
+		return out
+	}
+	return doc
 }
 
 // playPiece runs `crd write` on the piece and returns the raw result and bytes.
 func playPiece(c *core.Ctx, p model.Piece, f model.Flags, o writeOpts) (*runner.Result, []byte) {
-	doc := p.YAML(o.style)
+	doc := encodeDoc(p.YAML(o.style), o.encoding)
 	args := append([]string{"write"}, f.Args()...)
 	args = append(args, o.extra...)
 	var outPath string
@@ -40,7 +65,11 @@ func playPiece(c *core.Ctx, p model.Piece, f model.Flags, o writeOpts) (*runner.
 	if stdin == nil {
 		stdin = []byte{}
 	}
-	r := c.Crd.Run(runner.Opt{Stdin: stdin, Env: o.env}, args...)
+	ro := runner.Opt{Stdin: stdin, Env: o.env}
+	if !o.viaFile {
+		ro.StdinKind, ro.StdinPieces = o.stdinKind, o.pieces
+	}
+	r := c.Crd.Run(ro, args...)
 	c.Eval(1)
 	out := r.Stdout
 	if o.outFile {
@@ -51,11 +80,30 @@ func playPiece(c *core.Ctx, p model.Piece, f model.Flags, o writeOpts) (*runner.
 
 // randWriteOpts varies the I/O path and YAML syntax.
 func randWriteOpts(r *rand.Rand) writeOpts {
-	return writeOpts{
+	o := writeOpts{
 		viaFile: r.Intn(4) == 0,
 		outFile: r.Intn(4) == 0,
 		style:   model.YAMLStyle{PlainNumbers: r.Intn(2) == 0, FlowValues: r.Intn(3) == 0, JSON: r.Intn(8) == 0, ZeroPad: r.Intn(5) == 0},
 	}
+	switch r.Intn(12) {
+	case 0:
+		o.stdinKind = "file"
+	case 1:
+		o.stdinKind = "fileoffset"
+	case 2:
+		o.stdinKind = "socket"
+	case 3:
+		o.pieces = 2 + r.Intn(4)
+	}
+	switch r.Intn(16) {
+	case 0:
+		o.encoding = "utf8bom"
+	case 1:
+		o.encoding = "utf16le"
+	case 2:
+		o.encoding = "utf16be"
+	}
+	return o
 }
 
 // chordRuns groups the note-ons of a single-track file into runs of consecutive
